@@ -10,11 +10,12 @@ import SamlVerif.Driver.Jwt
 import SamlVerif.Driver.Mw
 import SamlVerif.Driver.IdpServer
 import SamlVerif.Driver.Locks
+import SamlVerif.Driver.IdPOut
 
 open SamlVerif
 
 def allHandlers : List (String × Proto.P String) :=
-  Driver.SPStruct.handlers ++ Driver.Codec.handlers ++ Driver.XmlencD.handlers ++ Driver.IdPD.handlers ++ Driver.LogoutD.handlers ++ Driver.BindingsD.handlers ++ Driver.HtmlD.handlers ++ Driver.JwtD.handlers ++ Driver.MwD.handlers ++ Driver.IdpServerD.handlers ++ Driver.LocksD.handlers
+  Driver.SPStruct.handlers ++ Driver.Codec.handlers ++ Driver.XmlencD.handlers ++ Driver.IdPD.handlers ++ Driver.LogoutD.handlers ++ Driver.BindingsD.handlers ++ Driver.HtmlD.handlers ++ Driver.JwtD.handlers ++ Driver.MwD.handlers ++ Driver.IdpServerD.handlers ++ Driver.LocksD.handlers ++ Driver.IdPOutD.handlers
 
 def answer (line : String) : String :=
   match (line.splitOn " ").filter (· ≠ "") with
